@@ -127,6 +127,8 @@ def _run_entry(plan, world, extra):
         tex2txt.main()
         return 'ok'
     if kind == 'lib':
+        # diagnostics of the filter quote sys.argv[0]: the same in every host
+        sys.argv = ['yalafi-lib']
         return _run_lib(plan, world, extra)
     raise HarnessError('unknown plan kind ' + repr(kind))
 
